@@ -116,8 +116,16 @@ func runPlot(t *simrt.Tape, keep bool) simrt.Outcome {
 		sizes = append(sizes, n)
 		ts := base.Add(time.Duration(t.Choose(1000)) * time.Millisecond)
 		first := ts
+		errMode, errFrom := t.Choose(4), t.Choose(n+1) // 0, 3: errors sprinkled at random
+		soak := t.Prob(1, 6)                            // a soak test: minutes between requests, days in total
 		for i := 0; i < n; i++ {
-			switch t.Choose(8) {
+			gapKind := t.Choose(8)
+			if soak && t.Prob(1, 2) {
+				gapKind = 8
+			}
+			switch gapKind {
+			case 8:
+				ts = ts.Add(time.Duration(1+t.Choose(600)) * time.Minute)
 			case 6: // nanosecond steps: the elapsed time is not a whole number of microseconds
 				ts = ts.Add(time.Duration(t.Choose(3000000)))
 			case 7: // elapsed time a few hundred nanoseconds either side of a whole millisecond
@@ -136,7 +144,14 @@ func runPlot(t *simrt.Tape, keep bool) simrt.Outcome {
 				ts = ts.Add(time.Duration(1+t.Choose(3)) * time.Minute)
 			}
 			res := vegeta.Result{Attack: names[a], Seq: uint64(i), Timestamp: ts, Latency: time.Duration(t.Choose(1<<30)) * time.Duration(1+t.Choose(3)), Code: 200}
-			if t.Prob(1, 4) {
+			failed := t.Prob(1, 4)
+			switch errMode {
+			case 1: // an outage that begins somewhere in the attack: the ERROR series starts late
+				failed = i >= errFrom
+			case 2: // a bad start: the OK series starts late
+				failed = i < errFrom
+			}
+			if failed {
 				res.Code, res.Error = 500, "500 Internal Server Error"
 			}
 			all = append(all, res)
@@ -324,7 +339,23 @@ func runPlot(t *simrt.Tape, keep bool) simrt.Outcome {
 		}
 		for _, p := range g {
 			if avail[keyOf(p)] == 0 {
-				r.fail("C17.point-value", map[string]string{"downsampled": fmt.Sprint(down)}, "series %q shows the point (x=%v s, y=%v ms) which no result of that series has (or more often than it occurs)", col, p.x, p.y)
+				// the result with the same latency, if any, tells what the point should have been
+				near := ""
+				for _, q := range s {
+					if q.y == p.y {
+						near = fmt.Sprintf("; the result with that latency belongs at x=%v s", q.x)
+						break
+					}
+				}
+				if os.Getenv("VERIF_DEBUG_PLOT") != "" {
+					for _, q := range s {
+						fmt.Printf("DEBUG want %q x=%v y=%v\n", col, q.x, q.y)
+					}
+					for _, q := range g {
+						fmt.Printf("DEBUG got  %q x=%v y=%v\n", col, q.x, q.y)
+					}
+				}
+				r.fail("C17.point-value", map[string]string{"downsampled": fmt.Sprint(down)}, "series %q shows the point (x=%v s, y=%v ms) which no result of that series has (or more often than it occurs)%s", col, p.x, p.y, near)
 				break
 			}
 			avail[keyOf(p)]--
